@@ -14,6 +14,15 @@ def step (s : St) (ws : List String) : Option (St × String) :=
   let s := { s with opno := s.opno + 1 }
   let bad : Option (St × String) := some (s, "bad-op")
   match ws with
+  | ["ringget"] => some (s, "ok")
+  | ["ringput"] => some (s, "ok")
+  | ["get", size] => match parseInt size with
+    | some size =>
+      let (p', r) := s.p.get size none
+      match r with
+      | none => some ({ s with p := p' }, "nil")
+      | some _ => bad      -- a positive size always comes with the pool's choice
+    | none => bad
   | ["get", size, ch] => match parseInt size with
     | some size =>
       let choice : Option Nat := if ch.startsWith "hit=" then (ch.drop 4).toNat? else none
@@ -25,8 +34,7 @@ def step (s : St) (ws : List String) : Option (St × String) :=
     | none => bad
   | ["foreign", n] => match n.toNat? with
     | some n =>
-      let sl : Slice := ⟨s.p.allocs.length, 0, n, n⟩
-      let p' := { s.p with allocs := s.p.allocs ++ [n], out := sl :: s.p.out }
+      let (p', sl) := s.p.foreign n
       some ({ s with p := p', slices := (s.opno, sl) :: s.slices }, s!"len={n} cap={n} base={sl.alloc}+0")
     | none => bad
   | ["put", id, lo, hi] => match id.toNat?, lo.toNat?, hi.toNat? with
